@@ -61,17 +61,10 @@ func genC05Case(t *rapid.T) C05Case {
 			used := map[string]bool{}
 			for j := 0; j < k; j++ {
 				var s Stmt
-				if st.Implicit {
-					// one write time for the whole transaction: every statement addresses its
-					// own key (two writes to one cell under one time are known finding K2)
-					s = genStmt(t, single, "s")
-					if len(s.Keys) != 1 || used[keyClassID(s.Keys[0])] {
-						continue
-					}
-					used[keyClassID(s.Keys[0])] = true
-				} else {
-					s = genStmt(t, cfg, "s")
-				}
+				// (with one write time for the whole transaction several statements may well
+				// write the same cell: the later statement counts)
+				s = genStmt(t, cfg, "s")
+				_ = used
 				st.Stmts = append(st.Stmts, s)
 			}
 			c.Steps = append(c.Steps, st)
@@ -477,7 +470,6 @@ func init() { register("TestC05_Txn", runC05) }
 func TestC05_Txn(t *testing.T) {
 	st := newStats(t, "C05", "TestC05_Txn", "one connection with a table pre-filled to tree heights 0-3 (entries_per_node 2-4096) and an observer table on a second connection; 1-14 steps: autocommit statements, BEGIN + 0-5 statements (multi-row, failing duplicate-key and NULL-key statements included) + COMMIT / ROLLBACK / COMMIT with the j-th mutating request failing (forced rollback), with explicit per-statement write_time or none; oracles: reads-own-writes after every statement, observer (refresh+scan) = committed model before the end and after it, ROLLBACK of either kind restores rows, s3db_version and the set of version objects (explicit rollback: zero PUT/DELETE), COMMIT adds at most one version object (exactly one if rows changed), entry-level timestamps written by a transaction without write_time are one instant and write_time reads NULL again; non-trivial = rollback after >=2 effective statements on height>=1, or a commit observed from the second connection")
 	st.Assume = append(st.Assume,
-		"transactions without explicit write_time address each key at most once (two writes to one cell under one time: known finding K2)",
 		"on multi-node trees the table is refreshed after a rollback before the next transaction (known finding K4), counted under excluded")
 	checkRapid(t, st, genC05Case, runC05)
 }
